@@ -19,13 +19,15 @@ class Q:
     def __init__(s, name, harness, shim, defs=None, config='real', cxxdefs=(), unwind=8, unwindset=None,
                  models=('core', 'libc'), stubs=(), allow_aborts=(), ub=False, timeout=None, mem_gb=12,
                  tiers=('quick', 'thorough'), cbmc_extra=(), roots=None, noinline=False, bound=None,
-                 object_bits=None, replay=True, note=None):
+                 object_bits=None, replay=True, note=None, loops=(), hunwind=None):
         s.name = name; s.harness = harness; s.shim = shim; s.defs = dict(defs or {}); s.config = config
         s.cxxdefs = tuple(cxxdefs); s.unwind = unwind; s.unwindset = dict(unwindset or {})
         s.models = tuple(models); s.stubs = tuple(stubs); s.allow_aborts = tuple(allow_aborts); s.ub = ub
         s.timeout = timeout; s.mem_gb = mem_gb; s.tiers = tuple(tiers); s.cbmc_extra = tuple(cbmc_extra)
         s.roots = roots; s.noinline = noinline; s.bound = bound or {}; s.object_bits = object_bits
         s.replay = replay; s.note = note
+        s.hunwind = hunwind      # bound for loops of the harness and of the environment models (default: unwind)
+        s.loops = tuple(loops)   # [(regex on the loop name 'function.N', bound)]: per-loop bounds; everything else gets `unwind`
 
 def load_prop(pid):
     import importlib.util
@@ -162,7 +164,7 @@ def cbmc_cmd(ctx, q, prep):
     cmd += ['--function', 'vp_harness_main', '--unwind', str(q.unwind), '--unwinding-assertions',
             '--no-malloc-may-fail', '--drop-unused-functions', '--no-pointer-primitive-check',
             '--trace', '--json-ui', '--verbosity', '6']
-    if q.unwindset:
+    if q.unwindset and not (q.loops or q.hunwind):
         cmd += ['--unwindset', ','.join('%s:%d' % kv for kv in q.unwindset.items())]
     if q.object_bits: cmd += ['--object-bits', str(q.object_bits)]
     cmd += list(q.cbmc_extra)
@@ -208,6 +210,24 @@ def run_query(ctx, q, tier):
     if prep['status'] != 'ok':
         return {'q': q, 'verdict': 'error', 'reason': prep['reason'], 'wall': time.time() - t0}
     cmd = cbmc_cmd(ctx, q, prep)
+    if q.loops or q.hunwind:
+        # expand the per-loop bound patterns against the loops CBMC actually sees; loops that are not in the
+        # generated library code (harness, environment models) get q.hunwind
+        sl = [c for c in cmd if c not in ('--trace', '--unwinding-assertions')] + ['--show-loops']
+        r0 = run(sl, timeout=120)
+        us = dict(q.unwindset)
+        try:
+            for e in json.loads(r0['out']):
+                for l in e.get('loops', []) if isinstance(e, dict) else []:
+                    for rx, b in q.loops:
+                        if re.search(rx, l['name']):
+                            us[l['name']] = b; break
+                    else:
+                        if q.hunwind and os.path.basename(l.get('sourceLocation', {}).get('file', '')) != 'k.c':
+                            us[l['name']] = q.hunwind
+        except Exception as ex:
+            return {'q': q, 'verdict': 'error', 'reason': 'cannot list loops: %s %s' % (ex, r0['err'][-300:]), 'wall': time.time() - t0}
+        if us: cmd += ['--unwindset', ','.join('%s:%d' % kv for kv in us.items())]
     timeout = q.timeout or (150 if tier == 'quick' else 900)
     outp = os.path.join(prep['dir'], 'cbmc.json')
     r = run(cmd, timeout=timeout, mem_gb=q.mem_gb if tier == 'quick' else max(q.mem_gb, 24), stdout_path=outp)
@@ -223,6 +243,8 @@ def run_query(ctx, q, tier):
         if r['rc'] in (-9, 137) or 'bad_alloc' in r['err'] or 'Out of memory' in r['err']: why = 'out of memory (limit %s GB)' % q.mem_gb
         errs = '; '.join(pr['errors'][-3:]) or r['err'][-500:]
         res.update(verdict='error' if pr['errors'] else 'inconclusive', reason='%s: %s' % (why, errs)); return res
+    if any(p['status'] == 'ERROR' for p in pr['props']) or any('out of memory' in e.lower() for e in pr['errors']):
+        res.update(verdict='inconclusive', reason='solver error: ' + ('; '.join(pr['errors'][-2:]) or 'property status ERROR')[:300]); return res
     failed = [p for p in pr['props'] if p['status'] == 'FAILURE']
     wit = [p for p in pr['props'] if p['desc'].startswith('witness:')]
     wit_ok = [p for p in wit if p['status'] == 'FAILURE']
